@@ -7,6 +7,7 @@ occur in input-only path atoms come from a (non-linearised) z3 query; everything
 seeded generator.
 """
 import random
+import threading
 import time
 from fractions import Fraction
 import numpy as np
@@ -15,10 +16,32 @@ import z3
 from .poly import VARS, VKIND, VROLE, Sym, S, peval, pvars, Atom as Atom_
 
 
+_CTX = [None]
+
+
+def _ctx():
+    # own context: interrupting it (hard limit below) can never cancel a query of the path solver
+    if _CTX[0] is None:
+        _CTX[0] = z3.Context()
+    return _CTX[0]
+
+
+def _check(s, hard_s=8.0):
+    """s.check() with a hard wall-clock limit: z3's soft timeout is ignored inside some non-linear queries"""
+    t = threading.Timer(hard_s, s.ctx.interrupt)
+    t.start()
+    try:
+        return s.check()
+    except z3.Z3Exception:
+        return z3.unknown
+    finally:
+        t.cancel()
+
+
 def _z3poly(p, zv):
-    tot = z3.RealVal(0)
+    tot = z3.RealVal(0, _ctx())
     for m, c in p.items():
-        t = z3.RealVal(str(c))
+        t = z3.RealVal(str(c), _ctx())
         for v, e in m:
             for _ in range(e):
                 t = t * zv[v]
@@ -31,12 +54,143 @@ def _holds(a, env):
     return {'==': v == 0, '!=': v != 0, '<': v < 0, '<=': v <= 0}[a.op]
 
 
-def instantiate(eng, seed=0, n=4, lo=-3, hi=3, pin_zero=True, budget_s=40.0):
+NICE_VECTORS = {1: [(1,), (2,)], 2: [(3, 4), (4, 3), (1, 1)], 3: [(1, 2, 2), (2, 1, 2), (2, 2, 1), (2, 3, 6)],
+                4: [(1, 1, 1, 1), (2, 2, 2, 2), (1, 1, 1, 3), (4, 4, 7, 0)]}
+
+
+def _partial(p, env):
+    """substitute the (integer) variables of env into the polynomial dict p"""
+    out = {}
+    for m, c in p.items():
+        rest = []
+        for v, e in m:
+            if v in env:
+                c = c * env[v] ** e
+            else:
+                rest.append((v, e))
+        if c:
+            k = tuple(rest)
+            out[k] = out.get(k, 0) + c
+            if not out[k]:
+                del out[k]
+    return out
+
+
+def _group(name):
+    return name.split('.')[0].rstrip('0123456789_[],')
+
+
+def goal_directed(eng, imodel, rng, seed, n=3, budget_s=24.0, max_vars=70, max_terms=6000):
+    """
+    Counterexample-guided instantiation: models of  path condition AND stub contracts / definitions AND NOT(failed VC)
+    (non-linear z3 query under a hard limit).  Only a search heuristic: whatever comes out is replayed on the real
+    code, which decides.  Returns a list of partial environments {real var -> Fraction}.
+    """
+    recs = getattr(eng, 'failed_goals', None) or []
+    if not recs:
+        return []
+    neg = []
+    for rec in recs[-6:]:
+        for g in rec.get('goals', [])[:40]:
+            neg.append(('!=', _partial(g, imodel)))
+        for a in rec.get('atoms', [])[:40]:
+            neg.append(('not' + a.op, _partial(a.p, imodel)))
+    neg = [(op, q) for op, q in neg if q]
+    if not neg:
+        return []
+    cons = [('==', _partial(h, imodel)) for h in eng.hyps if h]
+    cons += [(a.op, _partial(a.p, imodel)) for a in eng.atoms if a.op != '==']
+    cons = [(op, q) for op, q in cons if q and any(m for m in q)]
+    V = set()
+    for _, q in neg:
+        V |= pvars(q)
+    # close over the constraints that mention these variables
+    changed = True
+    used = [False] * len(cons)
+    while changed:
+        changed = False
+        for i, (op, q) in enumerate(cons):
+            if not used[i] and pvars(q) & V:
+                used[i] = True
+                if not pvars(q) <= V:
+                    V |= pvars(q)
+                changed = True
+    cons = [c for c, u in zip(cons, used) if u]
+    if len(V) > max_vars or sum(len(q) for _, q in cons + neg) > max_terms:
+        return []
+    t_start = time.time()
+    zv = {v: z3.Real('x!' + VARS[v], _ctx()) for v in V}
+    sol = z3.Solver(ctx=_ctx())
+    sol.set('timeout', 6000)
+    for op, q in cons:
+        e = _z3poly(q, zv)
+        sol.add({'==': e == 0, '!=': e != 0, '<': e < 0, '<=': e <= 0}[op])
+    lits = []
+    for op, q in neg:
+        e = _z3poly(q, zv)
+        lits.append({'!=': e != 0, 'not==': e != 0, 'not!=': e == 0, 'not<': e >= 0, 'not<=': e > 0}[op])
+    sol.add(z3.Or(*lits) if len(lits) > 1 else lits[0])
+    in_vars = sorted(v for v in V if VROLE[v] == 'input')
+    groups = {}
+    for v in in_vars:
+        groups.setdefault(_group(VARS[v]), []).append(v)
+    envs = []
+    for k in range(n * 2):
+        if time.time() - t_start > budget_s or len(envs) >= n:
+            break
+        sol.push()
+        if k > 0:
+            # prefer witnesses that survive floating point: integer vectors with an integer Euclidean norm, small integers
+            for gname, vs in sorted(groups.items()):
+                pool = NICE_VECTORS.get(len(vs))
+                if pool and rng.random() < 0.8:
+                    vec = pool[(k - 1 + rng.randrange(len(pool))) % len(pool)]
+                    sol.push()
+                    for v, x in zip(vs, vec):
+                        sol.add(zv[v] == x)
+                    if _check(sol, 6.0) != z3.sat:
+                        sol.pop()
+                else:
+                    for v in vs[:6]:
+                        sol.push()
+                        sol.add(zv[v] == rng.choice((1, 2, 3, 4, -1, -2)))
+                        if _check(sol, 4.0) != z3.sat:
+                            sol.pop()
+                if time.time() - t_start > budget_s:
+                    break
+        r = _check(sol, 8.0)
+        if r == z3.sat:
+            m = sol.model()
+            env = {}
+            ok = True
+            for v in in_vars:
+                val = m.eval(zv[v], model_completion=True)
+                if z3.is_rational_value(val):
+                    env[v] = Fraction(val.numerator_as_long(), val.denominator_as_long())
+                else:
+                    try:
+                        env[v] = Fraction(val.approx(20).as_fraction())
+                    except Exception:
+                        ok = False
+            if ok and env not in envs:
+                envs.append(env)
+        elif r == z3.unsat and k == 0:
+            while sol.num_scopes():
+                sol.pop()
+            return []           # the failed VC has no real counterexample on this path: nothing to find
+        while sol.num_scopes():
+            sol.pop()
+    return envs
+
+
+
+def instantiate(eng, seed=0, n=4, lo=-3, hi=3, pin_zero=True, budget_s=30.0):
     """list of up to n environments {var index -> Fraction/int} for all input variables"""
     rng = random.Random(seed)
     imodel = eng.int_model()
     if imodel is None:
         return []
+    icex = getattr(eng, 'int_cex', None)        # model of the integer path condition that also violates a failed integer VC
     inputs = [v for v in range(len(VARS)) if VROLE[v] == 'input']
     rvars = [v for v in inputs if VKIND[v] == 'real']
     inset = set(inputs)
@@ -71,11 +225,28 @@ def instantiate(eng, seed=0, n=4, lo=-3, hi=3, pin_zero=True, budget_s=40.0):
             zero_forced = set(prover.forced_zero_inputs(eng, rvars))
         except Exception:
             zero_forced = set()
+    imodels = [icex, imodel] if icex else [imodel]
+    # counterexample-guided instantiations first (models of path AND NOT failed VC), then plain path witnesses
+    try:
+        for im in imodels:
+            for part in goal_directed(eng, im, rng, seed, n=3, budget_s=budget_s * 0.6 / len(imodels)):
+                env = dict(im)
+                for v in rvars:
+                    if v in part:
+                        env[v] = part[v]
+                    elif v in zero_forced:
+                        env[v] = 0
+                    else:
+                        env[v] = Fraction(rng.randint(1, 9) * rng.choice((-1, 1)), rng.choice((1, 2, 4)))
+                envs.append(env)
+    except z3.Z3Exception:
+        pass
+    n = n + len(envs)
     t_start = time.time()
     for k in range(n * 3):
         if time.time() - t_start > budget_s:
             break
-        env = dict(imodel)
+        env = dict(imodels[k % len(imodels)])
         for v in zero_forced:
             env[v] = 0
         for v in rvars:
@@ -85,13 +256,13 @@ def instantiate(eng, seed=0, n=4, lo=-3, hi=3, pin_zero=True, budget_s=40.0):
                 num = rng.randint(1, 9) * rng.choice((-1, 1))
                 env[v] = Fraction(num, rng.choice((1, 2, 3, 4)))
         if constrained:
-            zv = {v: z3.Real('x!' + VARS[v]) for v in constrained}
-            s = z3.Solver()
+            zv = {v: z3.Real('x!' + VARS[v], _ctx()) for v in constrained}
+            s = z3.Solver(ctx=_ctx())
             s.set('timeout', 4000)
             s.set('random_seed', seed + k)
             for v in env:
                 if v not in zv:
-                    zv[v] = z3.RealVal(str(env[v]))
+                    zv[v] = z3.RealVal(str(env[v]), _ctx())
             for v in zero_forced:
                 if v in constrained:
                     s.add(zv[v] == 0)
@@ -105,16 +276,18 @@ def instantiate(eng, seed=0, n=4, lo=-3, hi=3, pin_zero=True, budget_s=40.0):
                     break
                 val = Fraction(rng.randint(1, 9) * rng.choice((-1, 1)), rng.choice((1, 2, 3)))
                 s.push()
-                s.add(zv[v] == z3.RealVal(str(val)))
-                if s.check() != z3.sat:
+                s.add(zv[v] == z3.RealVal(str(val), _ctx()))
+                if _check(s) != z3.sat:
                     s.pop()
             # prefer witnesses in which constrained inputs do not vanish (a zero input is often an excluded degenerate case)
             for v in order:
+                if time.time() - t_start > budget_s:
+                    break
                 s.push()
                 s.add(zv[v] != 0)
-                if s.check() != z3.sat:
+                if _check(s) != z3.sat:
                     s.pop()
-            if s.check() != z3.sat:
+            if _check(s) != z3.sat:
                 continue
             m = s.model()
             ok = True
